@@ -120,8 +120,22 @@ def rule_r2(prog, res):
             poly = any(t == 'self.polymorphic' and pol for t, pol in texts)
             inst = any(t.startswith('isinstance(inst,') and pol
                        for t, pol in texts)
-            narrow = [t for t, pol in texts if '_subclasses' in t or
-                      'get_subclasses' in t]
+            # copy-propagate locals used in the guards
+            local_src = {}
+            for a_ in walk_no_defs(f.node):
+                if isinstance(a_, ast.Assign) and isinstance(
+                        a_.targets[0], ast.Name):
+                    local_src.setdefault(a_.targets[0].id, []).append(
+                        unparse(a_.value))
+            narrow = []
+            for e, pol in g:
+                t = unparse(e)
+                srcs = [t] + [v_ for x in ast.walk(e)
+                              if isinstance(x, ast.Name)
+                              for v_ in local_src.get(x.id, [])]
+                if any('_subclasses' in v_ or 'get_subclasses' in v_
+                       for v_ in srcs):
+                    narrow.append(t)
             ok = poly and inst and not narrow
             res.ob('R2', where, 'switch to %s under %s' % (
                 unparse(v.elts[0]), [t for t, pol in texts if pol][:4]),
@@ -379,6 +393,14 @@ MUTANTS = [
                    "        cls_attr = self.get_cls_attrs(cls)\n",
                    "        if inst.__class__ not in (orig_cls.Attributes."
                    "_subclasses or ()):\n            return cls, False\n\n"
+                   "        cls_attr = self.get_cls_attrs(cls)\n"),
+           'direct-children-only'),
+    Mutant('grandchild-not-switched-via-local', 'R2', 'fire', _P,
+           in_func('ProtocolMixin.get_polymorphic_target',
+                   "        cls_attr = self.get_cls_attrs(cls)\n",
+                   "        known = orig_cls.Attributes._subclasses\n"
+                   "        if known is None or not (inst.__class__ in known):"
+                   "\n            return cls, False\n\n"
                    "        cls_attr = self.get_cls_attrs(cls)\n"),
            'direct-children-only'),
     Mutant('switch-when-not-polymorphic', 'R2', 'fire', _P,
